@@ -411,4 +411,24 @@ PROPS['C13']['level_note'] = ('Assumes the list/set builtin contracts (algebraic
                               'the hand transcription SMT <-> Lean of the list lemmas, and other is not self for the binary operations. The stdlib Set/MutableSet mixins '
                               'used by tools.Unique (remove, __ior__, __iand__, __and__, __sub__) are verified from the interpreter\'s own source.')
 
+CBO_LEMMAS = ['lemma.cbo.%s.%s' % (a, b) for a in ('basic', 'leaf_root', 'child_exists', 'child_inside') for b in ('P', 'O')]
+PROPS['C04'].update({
+    'units': ['fcbo.fast_generate_from', 'fcbo.fcbo_dual', 'fcbo.fast_generate_from.complete', 'fcbo.fcbo_dual.complete',
+              'algorithms.iterconcepts', 'algorithms.get_concepts', 'common.frompairs',
+              'lemma.line_closed', 'lemma.meet_closed.O', 'lemma.meet_closed.P', 'lemma.bits_subset'] + CBO_LEMMAS + GALOIS,
+    'level': 'proof',
+    'proved_part': 'both FCbO generators: soundness (every stack entry and every yielded pair is a formal concept; index safety) and, new, completeness and '
+                   'exactly-once: loop invariants over the stack as a multiset of (key, index, failed-set list) entries with the failed-set lists as heap '
+                   'objects (copy = allocation, sharing between siblings, later mutation) -- every closed key is yielded or lies in the Close-by-One subtree of '
+                   'exactly one stack entry, yielded keys lie in no subtree, inherited failed sets never prune a canonical child; at exit every formal concept '
+                   'is the pair yielded for its key, each key yielded once (lemmas lemma.cbo.* proved by z3 from the BITS axioms and the Galois lemmas); '
+                   'wrappers iterconcepts/get_concepts/frompairs return the same pairs in the same order, get_concepts a list allocated per call; '
+                   'agreement with context.lattice: both are characterised as "exactly the formal concepts, each once" (C03 units for the lattice)',
+    'bounded_part': 'the same statement on enumerated contexts (replay / counterexample finder); bitsets contracts',
+    'technique': 'contract-based deductive verification of both FCbO generators (soundness, completeness and exactly-once by loop invariants over ghost stack/heap state, '
+                 'z3-proved Close-by-One lemmas as instances) and of the wrappers; bounded run-time contracts as replay',
+    'level_text': 'All obligations are discharged for all contexts (unbounded): each generator yields exactly the formal concepts, each exactly once; the wrappers preserve the sequence.',
+    'level_note': 'Assumes bitsets contracts (atoms(), fromint, supremum/infimum), the stack-as-multiset abstraction (pop returns some entry: emission order is outside C04), '
+                  'list copy/element assignment as heap operations; termination not proved. The agreement with context.lattice is the corollary of this and the C03 units, not a separate obligation.',
+})
 NOT_APPLICABLE = {}
